@@ -330,6 +330,8 @@ def _run(ctx):
             ty = discipline.site_dest_ty(F, s_) or ""
             if util.local_fn(F, w) is not None and ty.startswith("std::result::Result<") and not ty.startswith("std::result::Result<(),"):
                 rec.append((s_, w))
+            elif w in ("record::ReadableShape::read_from", "record::RecordHeader::read_from"):
+                rec.append((s_, w))         # the record is read in place (no private helper): the typed content reader itself
         ok = bool(rec)
         why = []
         for s_, w in rec:
@@ -344,7 +346,7 @@ def _run(ctx):
                     # the error must be the item itself, untouched: Some(Err(e)) with e = the record reader's error
                     item = agg_field(p.ret, '0') if is_agg(p.ret, None, 'Some') else None
                     e = agg_field(item, '0') if is_agg(item, None, 'Err') else None
-                    if e != ('err', s_):
+                    if e != ('err', s_) and e != ('from', ('err', s_)):
                         ok = False
                         why.append("the error is rewrapped as %s" % absint.term_str(e)[:60] if e else "not an item")
         # success: the payload is the shape the record reader returned
